@@ -165,3 +165,31 @@ class _GetAvpClass:
     assumes = ("DiameterAvpLoader.get_avp_class dispatches by exact (vendor, code) key into the table built "
                "from DiameterAVP.__subclasses__() (discharged by evaluation: C10/registry-is-a-function, "
                "C10/registry-dispatch)",)
+
+
+def flags_are_default(code, vendor, flags):
+    """spec predicate: if (vendor, code) is a registered pair, `flags` are that class's default flags.
+    Native meaning: look the pair up in the real registry."""
+    from bromelia.constants import VENDOR_ID_DEFAULT
+    table = B.loader._get_load_avps_dictionary()
+    cls = table.get(vendor if vendor is not None else VENDOR_ID_DEFAULT, {}).get(code)
+    if cls is None:
+        return True
+    import json, os
+    ref = json.load(open(os.path.join(os.path.dirname(os.path.dirname(os.path.abspath(__file__))),
+                                      "reference", "avp_dictionary.json")))
+    r = ref.get(cls.__module__ + "." + cls.__name__)
+    return r is None or flags == bytes([r["default_flags"]])
+
+
+def _flags_are_default_model(ctx, args, kwargs):
+    from pyvc.values import SBool, int_term
+    from pyvc.models import _m_int_from_bytes
+    code, vendor, flags = args
+    hv, vt, ct = _key_terms(ctx, code, vendor)
+    fl = int_term(_m_int_from_bytes(ctx, [flags, "big"], {}))
+    return SBool(z3.Implies(REGISTERED(hv, vt, ct), fl == DFLAGS(hv, vt, ct)))
+
+
+from pyvc.models import ModelsMixin as _MM                            # noqa: E402
+_MM.FUNCTION_MODELS["contracts.l4_registry.flags_are_default"] = _flags_are_default_model
